@@ -127,6 +127,18 @@ struct HyperedgeTreeEdge
 
 typedef std::map<VertInf *, HyperedgeTreeNode *> VertexNodeMap;
 
+#ifdef ADAPTAGRAMS_VERIF
+// Verification hook H2 (add-only, compiled out without ADAPTAGRAMS_VERIF):
+// when verif_hyper_log is non-null the hyperedge trees built by
+// HyperedgeImprover::execute and HyperedgeRerouter::performRerouting and
+// every structural edit made to them are written as text records.  The
+// hook only reads state.
+extern FILE *verif_hyper_log;
+void verifHyperConn(FILE *fp, const char *tag, ConnRef *conn);
+void verifHyperDumpTree(FILE *fp, const char *tag, HyperedgeTreeNode *root);
+void verifHyperAdj(FILE *fp, HyperedgeTreeNode *node);
+#endif
+
 
 class CmpNodesInDim
 {
